@@ -312,6 +312,20 @@ def run(ctx):
     common.search(ctx, "rmw", rmw_case(), check_rmw, 3 * k)
     if ctx.mine(0):
         common.run_one(ctx, "getlbastatus:minimal", {}, check_minimal_getlbastatus)
+        common.run_one(ctx, "reportluns:minimal", {}, check_minimal_reportluns)
+
+
+def check_minimal_reportluns(case):
+    """REPORT LUNS parameter data built from a dictionary without a LUN list: LUN LIST LENGTH 0, no entries."""
+    RL = L("scsi_cdb_report_luns", "ReportLuns")
+    with lib("marshall"):
+        b = bytes(RL.marshall_datain(dict(case)))
+    want = bytes(R.report_luns([]))
+    expect(b == want, "mismatch:bytes_of_minimal_structure", got=b, want=want)
+    with lib("unmarshall"):
+        back = RL.unmarshall_datain(bytearray(b))
+    expect(list(back.get("luns", [None])) == [], "mismatch:values_roundtrip:minimal", got=back)
+    return False, ("minimal",)
 
 
 def check_minimal_getlbastatus(case):
@@ -333,6 +347,8 @@ def replay(ctx, subject, case):
         return check_rmw(case)
     if subject == "getlbastatus:minimal":
         return check_minimal_getlbastatus(case)
+    if subject == "reportluns:minimal":
+        return check_minimal_reportluns(case)
     name, mode = subject.split(":")
     s = structures()[name]
     (make_check_a if mode == "a" else make_check_b)(name, s)(case)
